@@ -736,7 +736,7 @@ func init() {
 		return &fw.Prop{
 			ID:          "C19",
 			Level:       "exploration",
-			Rule:        "cases = 'proof' (seeded random-shape proof documents: cap sizes, opening counts, query rounds, steps, leaf widths, sibling counts 0..17; 64-bit values up to 2^64-1, hash strings incl. values >= r and up to 2^256) written to disk, read with the repository's readers, walked by reflection and compared position by position with the generator's expected values (count and order of leaves, values; hashes as residues mod r), then turned into a witness with frontend.NewWitness whose vector must equal the expected residues in schema order; 'vd' the same for verifier-only data; 'common' random configuration documents vs. every field of the returned CommonCircuitData (selector info read by reflection); 'corrupt' (real proof document, one malformed value: non-numeric / hex / empty / fractional strings, negative, fractional, >=2^64 numbers, scalars where lists are expected) must be refused at read time or at witness time; malformations the property does not list (signed decimal string, null) are only reported. Non-trivial = every document (distinct seeds / corruption kinds).",
+			Rule:        "cases = 'proof' (seeded random-shape proof documents: cap sizes, opening counts, query rounds, steps, leaf widths, sibling counts 0..17; 64-bit values up to 2^64-1, hash strings incl. values >= r and up to 2^256) written to disk, read with the repository's readers, walked by reflection and compared position by position with the generator's expected values (count and order of leaves, values; hashes as residues mod r), then turned into a witness with frontend.NewWitness whose vector must equal the expected residues in schema order; 'vd' the same for verifier-only data; 'common' random configuration documents vs. every field of the returned CommonCircuitData (selector info read by reflection); 'corrupt' (real proof document, one malformed value: non-numeric / hex / empty / fractional strings, negative, fractional, >=2^64 numbers, scalars where lists are expected) must be refused at read time or at witness time; malformations the property does not list (signed decimal string, null) are only reported. Non-trivial = every document (distinct seeds / corruption kinds). Also: the request-body readers (same results as the file readers, sequences of reads with raw results kept, documents lacking keys), malformed verifier-data and common-data documents, extension elements with 0 or 1 coordinates, trailing zero coefficients, signed hash strings as second documents, and the readers used from 12 goroutines under the race detector.",
 			Assumptions: []string{"documents are generated by the harness (no plonky2 serializer offline); field names follow the real documents"},
 			MinEvents:   10000,
 			Gen: func(ctx *fw.Ctx) []fw.Case {
